@@ -241,6 +241,13 @@ func main() {
 		os.Exit(2)
 	}
 	c.Level = levels[id]
+	if c.Replay == "" {
+		// replay files of earlier runs of this check are stale
+		old, _ := filepath.Glob(filepath.Join(verifRoot, "replays", id+"-*.json"))
+		for _, f := range old {
+			os.Remove(f)
+		}
+	}
 	func() {
 		defer func() {
 			if r := recover(); r != nil {
